@@ -241,6 +241,10 @@ func runConcChecks(c *explore.Ctx, id string, drivers []concParams, bound int, p
 		per[d.Name] = map[string]any{"cfg": d.Cfg, "clients": d.Clients, "pre": d.Pre, "bound_completed": completed, "bound_target": bound, "executions_at_last_bound": last.Execs,
 			"distinct_histories": len(last.Hists), "distinct_outcomes": len(last.Outcomes), "max_choice_points": last.MaxPoints, "avg_choice_points": avg, "subtrees": last.Subtrees,
 			"pruned_at_visited_state": last.Pruned, "distinct_hb_traces": len(last.HBTraces), "weighted_budget_target": wb, "weighted_budget_completed": wdone}
+		if last.Aux > 0 {
+			per[d.Name].(map[string]any)["crash_images_recovered"] = last.Aux
+			c.Add("concurrent_crash_images", last.Aux)
+		}
 		fmt.Printf("  %-24s bound %d/%d execs=%d pruned=%d traces=%d hists=%d outcomes=%d maxpoints=%d\n", d.Name, completed, bound, last.Execs, last.Pruned, len(last.HBTraces), len(last.Hists), len(last.Outcomes), last.MaxPoints)
 		if len(c.Coverage) < 1000 {
 			c.Sample(map[string]any{"driver": d.Name, "clients": d.Clients, "outcomes": keysOf(last.Outcomes, 4)})
